@@ -2535,6 +2535,10 @@ class _Ctx:
             c = self.versioned(st, c)
             f = AIn(a, c)
             return f if isinstance(op, ast.In) else f_not(f)
+        if isinstance(op, (ast.Is, ast.IsNot)) and any(isinstance(t, App) and t.fn == 'type' and len(t.args) == 1 for t in (a, b)) and \
+                not any(isinstance(t, Const) for t in (a, b)):
+            # `type(x) is C`: classes are compared by identity either way
+            return self.cmp(ast.Eq() if isinstance(op, ast.Is) else ast.NotEq(), a, b, st)
         if isinstance(op, (ast.Is, ast.IsNot)):
             for u, w in ((a, b), (b, a)):
                 if isinstance(u, IfT) and (isinstance(w, Const) or self.is_sentinel(w)):
